@@ -45,7 +45,7 @@ def generate(rng, tier) -> dict:
             nchans = rng.choice([c for c in (64, 128) if (c * nbits) % 8 == 0])
             counts = [rng.randint(100, 400)]
             nfiles = 1
-        spec = {"nbits": nbits, "nchans": nchans, "nsamps": counts, "pad": [0] * nfiles, "vseed": rng.randrange(1 << 16),
+        spec = {"nbits": nbits, "nchans": nchans, "nsamps": counts, "pad": filgen.gen_pads(rng, nfiles, 0), "vseed": rng.randrange(1 << 16),
                 "mode": "small" if name in ("downsample", "subband", "remove_zerodm", "clean_rfi", "to_tim", "to_spec") else "bits"}
         if nbits == 32 and spec["mode"] == "bits":
             spec["mode"] = "ramp"  # survivors are compared as float values: keep them finite
